@@ -22,6 +22,7 @@ import PopsModel.Model.SuitList
 import PopsModel.Model.Treat
 import PopsModel.Model.Actions
 import PopsModel.Model.RunStep
+import PopsModel.Model.Soil
 namespace Pops.Driver.HostEng
 open Pops Pops.Driver
 
@@ -41,6 +42,8 @@ structure State where
   treats : List (TreatSpec × TreatApp × List Rat) := []   -- Treatments container (after clear_after_step)
   soilCells : List (List Int) := []   -- soil cohorts per cell after the previous model step
   stepStart : List Cell := []         -- host cells when the current model step began
+  soilSent : List Int := []           -- per cell: dispersers handed to the soil by the spread of this model step (-1 = not determined)
+  soilNoStore : Bool := false         -- deterministic establishment through Model: the soil tester is 1, nothing is stored
 deriving Inhabited
 
 def intList? (s : String) : Option (List Int) :=
@@ -478,7 +481,18 @@ def handle (st : State) (cmd : String) (inp obsToks : List String) : State × St
           else if spreadTok == "1" && (List.zip now.dropLast aged.dropLast).any (fun (a, b) => a > b) then
             some s!"PROPFAIL C04 soil_ageing previous={prev} now={now} aged={aged}"
           else none
-        (st', bad.getD "ok")
+        -- C04 (C04_soil_arrivals, C04_soil_disperser_once): after a spread step the youngest cohort of a cell holds
+        -- at most what that cell's soil was handed in this step - the soil share of ITS generated dispersers
+        let bad2 : Option String :=
+          if spreadTok != "1" || st.soilSent.length != cur.length then none else
+          (List.zip (List.range cur.length) (List.zip st.soilSent cur)).findSome? fun (k, sent, now) =>
+            let youngest := now.getLast?.getD 0
+            if sent ≥ 0 && youngest > sent then
+              some s!"PROPFAIL C04 soil_stored_more_than_sent cell={k} youngest_cohort={youngest} handed_to_soil={sent}"
+            else if st.soilNoStore && youngest != 0 then
+              some s!"MISMATCH hp.soilstate cell={k} stored={youngest} with deterministic establishment (model: tester 1, nothing stored)"
+            else none
+        ({ st' with soilSent := [] }, (joinVs [bad, bad2]).getD "ok")
   -- differential run SI vs SEI with latency 0 (whole Model runs compared by the harness)
   | "hp.l0", [_n] =>
     (st, if obsToks.head? == some "equal" then "ok" else s!"PROPFAIL C05 L0_differs_from_SI {" ".intercalate (obsToks.take 40)}")
@@ -978,7 +992,14 @@ def handle (st : State) (cmd : String) (inp obsToks : List String) : State × St
             | some v => finish st o v
             | none =>
                 let st1 := { st with pest := { disp := dispO, est := estO, outside := st.pest.outside ++ outO } }
-                if soilPct.isSome then finish st1 o "ok"
+                if soilPct.isSome then
+                  -- what each cell's soil was handed in this spread (C04_soil_arrivals): the soil share of the
+                  -- generated count at a listed cell (known when generation is deterministic), nothing elsewhere
+                  let sent : List Int := (List.range pre.length).map fun k =>
+                    match (List.zip suitIdx genModel).find? (fun (k', _) => k' == k) with
+                    | some (_, gm) => if det then soilHanded soilPct gm else -1
+                    | none => 0
+                  finish { st1 with soilSent := sent, soilNoStore := sto != "1" } o "ok"
                 else
                   -- exact replay: generated counts (observed when generation is stochastic), targets, uniforms
                   let gen := if det then genModel else suitIdx.map fun k => dispO[k]!
@@ -1026,12 +1047,23 @@ def handle (st : State) (cmd : String) (inp obsToks : List String) : State × St
               let a := pre[k]!; let b := post[k]!
               if { b with s := a.s, i := a.i } != a then
                 some s!"PROPFAIL C17 overpopulation_changed_other_classes cell={k} pre={showCell a} post={showCell b}" else none
-            match parseInt? drT, parseInt? dcT with
-            | some dr, some dc =>
-              -- deterministic neighbour kernel: every destination is known, so C17's sentence fixes the outcome:
+            -- destinations known: the deterministic neighbour kernel (one shift for every source), or an injected
+            -- table kernel whose calls the harness logged (`T r,c;r,c;..`, one destination per qualifying cell in
+            -- the order of the suitable-cell list - several sources may share a destination)
+            let known : Option (List (Int × Int)) :=
+              if drT == "T" then pairs? dcT ";" else
+              match parseInt? drT, parseInt? dcT with
+              | some dr, some dc => some (departing.map fun (r, c) => (r + dr, c + dc))
+              | _, _ => none
+            match known with
+            | some targets =>
+              if targets.length != departing.length then
+                -- C17: exactly the qualifying cells send pests away, one kernel call each
+                finish st o s!"PROPFAIL C17 departure_rule destinations_asked_for={targets.length} qualifying_cells={departing.length}"
+              else
+              -- every destination is known, so C17's sentence fixes the outcome:
               -- each qualifying cell sends round(infected x share) (its infected turn susceptible), all departures
               -- are decided on the state before any arrival, at a destination min(arriving, susceptible) establish
-              let targets := departing.map fun (r, c) => (r + dr, c + dc)
               let expOut := (departing.zip targets).flatMap fun ((r, c), (tr, tc)) =>
                 if g.isOutside tr tc then List.replicate (leavingCount leave (pre[g.idx r c]!)).toNat (tr, tc) else []
               let pOut : Option String :=
@@ -1054,7 +1086,7 @@ def handle (st : State) (cmd : String) (inp obsToks : List String) : State × St
               | none =>
                 let v := cmpCells cmd cells' post
                 finish st o (if v == "ok" then genReplay cmd { baseInputs st with overThreshold := thr, overLeaving := leave, overTargets := targets } 0 .overpopulation pre post else v)
-            | _, _ =>
+            | none =>
               -- uniform natural kernel: destinations are unknown but always inside the study area;
               -- pests that leave either establish somewhere or vanish, none is recorded outside
               let left := sumL (departing.map fun (r, c) => leavingCount leave (pre[g.idx r c]!))
